@@ -160,17 +160,45 @@ func (in *Interp) funcValue(fn *ssa.Function) *FuncV {
 	if f, ok := in.funcVals[fn]; ok {
 		return f
 	}
+	// go/ssa may build the same synthetic function (thunk, wrapper, bound method) more than
+	// once; one identity (code address) per name
+	if fn.Synthetic != "" && fn.Parent() == nil {
+		key := fn.String() + "|" + fn.Synthetic
+		if in.synthByName == nil {
+			in.synthByName = map[string]*ssa.Function{}
+		}
+		if first, ok := in.synthByName[key]; ok && first != fn {
+			f := in.funcValue(first)
+			in.funcVals[fn] = f
+			return f
+		}
+		in.synthByName[key] = fn
+	}
 	// a method expression (*T).M compiles to a reference to the method's own symbol; go/ssa
 	// wraps it in a "$thunk" with the receiver as first parameter. Give it the identity
 	// (code address) of the method, the same one reflect's Method(i).Func has.
 	if strings.HasPrefix(fn.Synthetic, "thunk for") && len(fn.Blocks) == 1 {
 		for _, ins := range fn.Blocks[0].Instrs {
 			if c, ok := ins.(*ssa.Call); ok {
-				if callee := c.Call.StaticCallee(); callee != nil && callee.Signature.Recv() != nil && fn.Signature.Params().Len() > 0 &&
-					types.Identical(callee.Signature.Recv().Type(), fn.Signature.Params().At(0).Type()) {
-					f := in.methodFuncV(callee, fn.Signature)
-					in.funcVals[fn] = f
-					return f
+				if callee := c.Call.StaticCallee(); callee != nil && callee.Signature.Recv() != nil && fn.Signature.Params().Len() > 0 {
+					p0 := fn.Signature.Params().At(0).Type()
+					if types.Identical(callee.Signature.Recv().Type(), p0) {
+						f := in.methodFuncV(callee, fn.Signature)
+						in.funcVals[fn] = f
+						return f
+					}
+					// (*T).V for a value-receiver method V: the symbol is the compiler-generated
+					// pointer-receiver wrapper, the one reflect's method table of *T points at
+					if pt, ok := p0.(*types.Pointer); ok && types.Identical(pt.Elem(), callee.Signature.Recv().Type()) && callee.Object() != nil {
+						ms := in.prog.MethodSets.MethodSet(p0)
+						if sel := ms.Lookup(callee.Object().Pkg(), callee.Object().Name()); sel != nil {
+							if w := in.prog.MethodValue(sel); w != nil {
+								f := in.methodFuncV(w, fn.Signature)
+								in.funcVals[fn] = f
+								return f
+							}
+						}
+					}
 				}
 			}
 		}
